@@ -464,16 +464,14 @@ def ValidFrameEvent (cfg : Bool × Bool) (f : Option Frame.Frame) (ev : REvent) 
   | some (.headers _ _ _ blk) => ∃ g, BlockInv blk g ∧ (∀ x ∈ g, fieldOk x = true) ∧ ValidEvent cfg g ev
   | some (.data _ payload eos _) => ev = .data payload (!eos)
   | some (.pushPromise _ promised blk) => ∃ g, BlockInv blk g ∧ (∀ x ∈ g, fieldOk x = true) ∧
-      ∃ m u, ev = .request m u (groupInto [] (regular g)) ∧
-        (∀ r ∈ Spec.Http.request g false, r = "missing-path" ∧ Spec.Http.get g ":authority" = [] ∧
-          Spec.Http.get g ":path" = []) ∧
+      ∃ m u, ev = .request m u (groupInto [] (regular g)) ∧ Spec.Http.request g false = [] ∧
         (Spec.Http.get g ":method" = [Http.str "GET"] ∨ Spec.Http.get g ":method" = [Http.str "HEAD"]) ∧
         promiseClOk (Conn.headersIn promised false blk) = true
   | _ => False
 
 /-- **one turn of the read loop, every connection state**: for a frame as `poll_next` yields it
     (`GoodFrame`, see `pollNext_good`), everything `recv_frame` puts into any receive queue is one
-    message that satisfies the reference's rules up to the listed exceptions -/
+    message that satisfies the reference's rules (responses / trailers: up to the known findings F5a–c) -/
 theorem recvFrame_valid (c : Conn) (f : Option Frame.Frame) (hgood : ∀ fr, f = some fr → GoodFrame fr) :
     Delivers (fun _ ev => ValidFrameEvent (cfgOf c.streams) f ev) c.streams (c.recvFrame f).1.streams := by
   refine (recvFrame_delivers c f).mono fun _ ev he => ?_
